@@ -12,6 +12,11 @@ func init() { register("C07", c07) }
 
 func c07(c *Ctx) {
 	p, r := c.K1(), c.R
+	// R7: cancelling an interface mock always records it (C12.R5): a Cancel that returns early keeps the cached context
+	// alive and the next Reset is swallowed
+	if !c.importing {
+		importSibling(c, "C12", "C07.R7", func(rule string) bool { return rule == "C12.R5" })
+	}
 	r.Expl = "Structural clauses behind 'interface-variable mocks dispatch each method to its own replacement and restore': every pointer embedded into a generated stub is extracted from a value that is, on the same path, added by an accumulating store (append / map insert) to memory reachable from the mock context that the interface variable's data word points to (a plain field overwrite loses the previous stub's closure); the builder's interface-mocker cache key depends on the variable's address and not on Type.String(); every slot of the fabricated method table is defaulted to the not-implemented routine by a loop over the whole table, and the mocked slot is the index whose method name equals the requested one; the variable's words are backed up first-write-wins and Cancel writes exactly them back; allocator errors reach the caller. That the stub code works and GC behaviour itself are not decided."
 	r.RuleText = "one obligation per (rule, embed site / key / loop / store)"
 	r.Floor("C07.R1", 2)
